@@ -266,3 +266,36 @@ func TestVerif_C36(t *testing.T) {
 	}
 	r.Bound(fmt.Sprintf("preemption bound 0..%d per scenario; %d scenarios", maxBound, len(c36scenarios)))
 }
+
+
+// TestVerif_C36_race: the same scenario bodies free-running (no scheduler: the
+// vsync types fall back to the real sync primitives) under the Go race
+// detector.  The cooperative scheduler's hand-offs are happens-before edges
+// that would blind the detector, so unsynchronised accesses are looked for in
+// this separate pass.  A reported race makes the test binary exit non-zero
+// ("WARNING: DATA RACE"), which the harness turns into a violation.
+func TestVerif_C36_race(t *testing.T) {
+	r := vh.Start(t, "C36", "race")
+	defer r.Finish()
+	r.Rule("free-running repetitions of the C36 scenario bodies under -race; supplementary to the exhaustive schedule exploration (it samples schedules; it only looks for unsynchronised accesses the scheduling points would not cover)")
+	reps := r.Pick(200, 2000)
+	for _, sc := range c36scenarios {
+		for i := 0; i < reps; i++ {
+			in := c36build(sc)
+			done := make(chan struct{}, 8)
+			bs := in.bodies()
+			for _, b := range bs {
+				b := b
+				go func() { b(); done <- struct{}{} }()
+			}
+			for range bs {
+				<-done
+			}
+			r.Eval(1)
+			if v := in.check(true); v != "" {
+				r.Violation("free-running:"+strings.SplitN(v, ":", 2)[0]+"@"+sc.name, v, nil)
+			}
+		}
+		r.Class("scenario:" + sc.name)
+	}
+}
